@@ -2240,7 +2240,7 @@ class Image(Vectorizable, Landmarkable, Viewable, LandmarkableViewable):
             `return_transform` is ``True``.
         """
         pc = self.landmarks[group]
-        scale = AlignmentUniformScale(pc, pointcloud).as_vector().copy()
+        scale = AlignmentUniformScale(pc, pointcloud).as_vector()[0]
         return self.rescale(
             scale,
             round=round,
